@@ -12,7 +12,7 @@ echo "== test-suite with the change"
 suite=$(PYTHONPATH=$wt/src /venv/bin/python -m pytest -q -p no:cacheprovider --timeout=900 2>&1 | tail -1); echo "$suite"
 echo "== demo with the change"
 PYTHONPATH=$wt/src /venv/bin/python -W ignore demo_$pid.py >$out/demo_with.log 2>&1; dw=$?; echo "demo_with_rc=$dw"
-git checkout -q -- src
+git apply -R $wt/patch.diff 2>/dev/null || git checkout -q -- src   # -R also removes files the patch adds
 echo "== demo without the change"
 PYTHONPATH=$wt/src /venv/bin/python -W ignore demo_$pid.py >$out/demo_without.log 2>&1; dwo=$?; echo "demo_without_rc=$dwo"
 git apply $wt/patch.diff
@@ -26,6 +26,6 @@ for c in $checks; do
   grep -v "^KNOWN-FINDING" $out/check_$c.log | cut -c1-300; echo "check_${c}_rc=$rc"; res="$res $c:$rc"
   cp /verif/replays/${c}_*.json $out/ 2>/dev/null
 done
-git -C /repo checkout -- .
+git -C /repo checkout -- .; git -C /repo clean -fdq -- src
 git -C /repo status --short
 echo "{\"suite\": \"$suite\", \"demo_with_rc\": $dw, \"demo_without_rc\": $dwo, \"checks\": \"$res\"}" > $out/result.json
